@@ -22,7 +22,7 @@ pub struct Ctx<'a, 'b> {
 }
 
 impl Ctx<'_, '_> {
-    fn viol(&mut self, prop: &str, sig: &str, detail: String, extra: Value) {
+    pub fn viol(&mut self, prop: &str, sig: &str, detail: String, extra: Value) {
         let w = json!({
             "case": self.an.case.describe(),
             "end": format!("{:?}", self.an.out.end),
@@ -50,6 +50,7 @@ pub fn check_all(an: &Analysis<'_>, t: &mut Tally, idx: u64) {
         c10(&mut cx);
         return;
     }
+    crate::pipelines::check_c01(&mut cx);
     c02(&mut cx);
     c03(&mut cx);
     c04(&mut cx);
